@@ -132,6 +132,103 @@ fn build_value(vr: VR, items: &[Vec<u8>], alt: bool) -> PrimitiveValue {
     }
 }
 
+/// in-memory form of the values of an object under construction
+#[derive(Clone, Copy, PartialEq, Debug)]
+enum Form {
+    /// Strs for text
+    Plain,
+    /// Str instead of Strs for a single text item
+    Alt,
+    /// Date / Time / DateTime built from the components in the element's `typed` field
+    Typed,
+}
+
+fn part_i(p: &Value, k: &str) -> i64 {
+    p[k].as_i64().unwrap_or(-1)
+}
+fn mk_date(p: &Value) -> DicomDate {
+    let (y, mo, d) = (part_i(p, "y"), part_i(p, "mo"), part_i(p, "d"));
+    if mo < 0 {
+        DicomDate::from_y(y as u16).unwrap()
+    } else if d < 0 {
+        DicomDate::from_ym(y as u16, mo as u8).unwrap()
+    } else {
+        DicomDate::from_ymd(y as u16, mo as u8, d as u8).unwrap()
+    }
+}
+fn mk_time(p: &Value) -> DicomTime {
+    let (h, mi, sec) = (part_i(p, "h"), part_i(p, "mi"), part_i(p, "s"));
+    let f: Vec<u8> = j_bytes(&p["f"]);
+    if mi < 0 {
+        DicomTime::from_h(h as u8).unwrap()
+    } else if sec < 0 {
+        DicomTime::from_hm(h as u8, mi as u8).unwrap()
+    } else if f.is_empty() {
+        DicomTime::from_hms(h as u8, mi as u8, sec as u8).unwrap()
+    } else {
+        let val: u32 = f.iter().fold(0u32, |a, d| a * 10 + *d as u32);
+        match f.len() {
+            3 => DicomTime::from_hms_milli(h as u8, mi as u8, sec as u8, val).unwrap(),
+            6 => DicomTime::from_hms_micro(h as u8, mi as u8, sec as u8, val).unwrap(),
+            _ => {
+                // other fraction precisions have no public constructor: obtain the value
+                // from the library's own parser of the components' text
+                let frac: String = f.iter().map(|d| (b'0' + d) as char).collect();
+                let txt = format!("{h:02}{mi:02}{sec:02}.{frac}");
+                dicom_core::value::deserialize::parse_time_partial(txt.as_bytes()).expect("time text").0
+            }
+        }
+    }
+}
+fn mk_datetime(p: &Value) -> DicomDateTime {
+    let date = mk_date(p);
+    let tz = j_arr(&p["tz"]);
+    let off = if tz.is_empty() {
+        None
+    } else {
+        let secs = (j_usize(&tz[1]) as i32) * 3600 + (j_usize(&tz[2]) as i32) * 60;
+        Some(if j_usize(&tz[0]) == 45 {
+            dicom_core::chrono::FixedOffset::west_opt(secs).unwrap()
+        } else {
+            dicom_core::chrono::FixedOffset::east_opt(secs).unwrap()
+        })
+    };
+    let has_time = part_i(p, "h") >= 0;
+    match (has_time, off) {
+        (false, None) => DicomDateTime::from_date(date),
+        (false, Some(o)) => DicomDateTime::from_date_with_time_zone(date, o),
+        (true, None) => DicomDateTime::from_date_and_time(date, mk_time(p)).unwrap(),
+        (true, Some(o)) => DicomDateTime::from_date_and_time_with_time_zone(date, mk_time(p), o).unwrap(),
+    }
+}
+
+/// the in-memory value of a primitive element of the abstract data set
+fn build_elem_value(e: &Value, vr: VR, form: Form) -> PrimitiveValue {
+    if form == Form::Typed {
+        if let Some(parts) = e.get("typed").and_then(|t| t.as_array()) {
+            return match vr {
+                VR::DA => PrimitiveValue::Date(parts.iter().map(mk_date).collect()),
+                VR::TM => PrimitiveValue::Time(parts.iter().map(mk_time).collect()),
+                VR::DT => PrimitiveValue::DateTime(parts.iter().map(mk_datetime).collect()),
+                _ => panic!("typed form for {vr}"),
+            };
+        }
+    }
+    if let Some(cp) = e.get("cp").and_then(|t| t.as_array()) {
+        // text given as code points (non-default character repertoire)
+        let strs: Vec<String> =
+            cp.iter().map(|it| j_arr(it).iter().map(|c| char::from_u32(j_usize(c) as u32).unwrap()).collect()).collect();
+        if strs.is_empty() {
+            return PrimitiveValue::Empty;
+        }
+        if is_text_single(vr) || (form == Form::Alt && strs.len() == 1) {
+            return PrimitiveValue::Str(strs[0].clone());
+        }
+        return PrimitiveValue::Strs(strs.into_iter().collect());
+    }
+    build_value(vr, &items_of(&e["v"]), form == Form::Alt)
+}
+
 fn len_field(v: &Value) -> Length {
     match v.as_i64() {
         Some(n) if n >= 0 => Length(n as u32),
@@ -141,18 +238,18 @@ fn len_field(v: &Value) -> Length {
 
 /// abstract data set -> in-memory object (sequence lengths as recorded; item lengths
 /// cannot be set in memory and stay undefined)
-fn build_obj(ds: &Value, alt: bool) -> InMemDicomObject {
+fn build_obj(ds: &Value, form: Form) -> InMemDicomObject {
     let mut elems: Vec<InMemElement> = Vec::new();
     for e in j_arr(ds) {
         let tag = tag_of(&e["tag"]);
         match j_str(&e["k"]) {
             "P" => {
                 let vr = VR::from_str(j_str(&e["vr"])).unwrap();
-                let pv = build_value(vr, &items_of(&e["v"]), alt);
+                let pv = build_elem_value(e, vr, form);
                 elems.push(DataElement::new(tag, vr, DValue::Primitive(pv)));
             }
             "S" => {
-                let items: Vec<InMemDicomObject> = j_arr(&e["items"]).iter().map(|it| build_obj(&it["ds"], alt)).collect();
+                let items: Vec<InMemDicomObject> = j_arr(&e["items"]).iter().map(|it| build_obj(&it["ds"], form)).collect();
                 let len = len_field(&e["len"]);
                 elems.push(DataElement::new_with_len(
                     tag,
@@ -178,6 +275,13 @@ fn build_obj(ds: &Value, alt: bool) -> InMemDicomObject {
     InMemDicomObject::from_element_iter(elems)
 }
 
+/// text as code points, without trailing padding (SPACE / NUL) when `trim`
+fn code_points(s: &str, trim: bool) -> Value {
+    let t = if trim { s.trim_end_matches([' ', '\0']) } else { s };
+    Value::Array(t.chars().map(|c| json!(c as u32)).collect())
+}
+
+#[allow(dead_code)]
 fn trim_pad(b: &[u8]) -> &[u8] {
     let mut x = b;
     while let Some(&l) = x.last() {
@@ -201,11 +305,11 @@ fn project_value(pv: &PrimitiveValue) -> Value {
             Value::Array(
                 v.iter()
                     .enumerate()
-                    .map(|(i, s)| if i + 1 == n { bytes_json(trim_pad(s.as_bytes())) } else { bytes_json(s.as_bytes()) })
+                    .map(|(i, s)| code_points(s, i + 1 == n))
                     .collect(),
             )
         }
-        PrimitiveValue::Str(s) => json!([bytes_json(trim_pad(s.as_bytes()))]),
+        PrimitiveValue::Str(s) => json!([code_points(s, true)]),
         PrimitiveValue::U8(v) => be(v.iter().map(|x| vec![*x])),
         PrimitiveValue::U16(v) => be(v.iter().map(|x| x.to_be_bytes().to_vec())),
         PrimitiveValue::I16(v) => be(v.iter().map(|x| x.to_be_bytes().to_vec())),
@@ -349,8 +453,16 @@ fn shape(ds: &Value) -> String {
     }
     let mut s = (0usize, false, false, false, false, Vec::new());
     walk(ds, 0, &mut s);
+    let dss = ds.to_string();
+    let extra = if dss.contains("\"typed\"") {
+        ", date/time given by components"
+    } else if dss.contains("\"cp\"") {
+        ", non-default character set"
+    } else {
+        ""
+    };
     if s.0 == 0 && !s.4 && s.5.len() == 1 {
-        return format!("single {} element", s.5[0]);
+        return format!("single {} element{extra}", s.5[0]);
     }
     let mut parts = vec![format!("nesting depth {}", s.0)];
     if s.3 {
@@ -365,7 +477,7 @@ fn shape(ds: &Value) -> String {
     if s.4 {
         parts.push("encapsulated pixel data".into());
     }
-    parts.join(", ")
+    format!("{}{extra}", parts.join(", "))
 }
 
 /// first difference between expected and observed read-back, as an abstract phrase
@@ -525,9 +637,13 @@ fn replay_case(cx: &mut Ctx, c: &Value) {
     // ---------- C01 / C04: objects (built in memory, and obtained by reading) -> write -> read
     let mut objs: Vec<(&str, InMemDicomObject)> = Vec::new();
     if mem {
-        objs.push(("mem", build_obj(ds, false)));
-        if ds.to_string().contains("\"P\"") && c["sweep"] == "vr" {
-            objs.push(("mem-alt", build_obj(ds, true)));
+        objs.push(("mem", build_obj(ds, Form::Plain)));
+        let dss = ds.to_string();
+        if dss.contains("\"P\"") && c["sweep"] == "vr" {
+            objs.push(("mem-alt", build_obj(ds, Form::Alt)));
+        }
+        if dss.contains("\"typed\"") {
+            objs.push(("mem-typed", build_obj(ds, Form::Typed)));
         }
     }
     if let Ok(o) = canon {
@@ -1021,18 +1137,21 @@ fn run_prims(a: &std::collections::HashMap<String, String>) {
     let selftest = std::env::var("VERIF_SELFTEST").ok();
     let mut r = Rng::new(seed_from_env() ^ 0xC04);
     // (ts, vr, items, tag): the VR sweep values from TLC plus random values
-    let mut inputs: Vec<(String, VR, Vec<Vec<u8>>, Tag)> = Vec::new();
+    let mut inputs: Vec<(String, VR, Vec<Vec<u8>>, Tag, PrimitiveValue)> = Vec::new();
     for c in &cases {
         let ds = j_arr(&c["ds"]);
         if ds.len() != 1 || ds[0]["k"] != "P" {
             continue;
         }
         let e = &ds[0];
-        let key = format!("{}{}{}", c["ts"], e["vr"], e["v"]);
+        let key = format!("{}{}{}{}", c["ts"], e["vr"], e["v"], e.get("typed").is_some());
         if !seen.insert(key) {
             continue;
         }
-        inputs.push((j_str(&c["ts"]).to_string(), VR::from_str(j_str(&e["vr"])).unwrap(), items_of(&e["v"]), tag_of(&e["tag"])));
+        let vr = VR::from_str(j_str(&e["vr"])).unwrap();
+        // typed dates/times in their typed in-memory form, everything else in the plain form
+        let pv = build_elem_value(e, vr, if e.get("typed").is_some() { Form::Typed } else { Form::Plain });
+        inputs.push((j_str(&c["ts"]).to_string(), vr, items_of(&e["v"]), tag_of(&e["tag"]), pv));
     }
     let nrand: usize = a.get("n").and_then(|s| s.parse().ok()).unwrap_or(300);
     for i in 0..nrand {
@@ -1040,24 +1159,23 @@ fn run_prims(a: &std::collections::HashMap<String, String>) {
         let vr = VR::from_str(vrs).unwrap();
         let (pv, items) = random_value(&mut r, vr);
         // only forms whose abstract items determine the PrimitiveValue
-        if matches!(pv, PrimitiveValue::Date(_) | PrimitiveValue::Time(_) | PrimitiveValue::DateTime(_) | PrimitiveValue::I32(_) | PrimitiveValue::F64(_))
-            && is_text(vr)
-        {
+        // binary numbers in IS/DS are turned into text only by the stateful encoder: their
+        // abstract text does not describe what Encode::encode_primitive writes
+        if matches!(pv, PrimitiveValue::I32(_) | PrimitiveValue::F64(_)) && is_text(vr) {
             continue;
         }
-        inputs.push((["IVRLE", "EVRLE", "EVRBE"][i % 3].to_string(), vr, items, Tag(0x0072, el)));
+        inputs.push((["IVRLE", "EVRLE", "EVRBE"][i % 3].to_string(), vr, items, Tag(0x0072, el), pv));
     }
-    for (ts, vr, items, tag) in &inputs {
+    for (ts, vr, items, tag, pv) in &inputs {
         rep.cases += 1;
-        let pv = build_value(*vr, items, false);
         let v: Vec<Value> = items.iter().map(|b| bytes_json(b)).collect();
         // 1. Encode::encode_primitive: reported count vs bytes written
         let res = catch(|| {
             let mut cw = CountingWriter { data: Vec::new() };
             let r = match ts.as_str() {
-                "IVRLE" => ImplicitVRLittleEndianEncoder::default().encode_primitive(&mut cw, &pv),
-                "EVRLE" => ExplicitVRLittleEndianEncoder::default().encode_primitive(&mut cw, &pv),
-                _ => ExplicitVRBigEndianEncoder::default().encode_primitive(&mut cw, &pv),
+                "IVRLE" => ImplicitVRLittleEndianEncoder::default().encode_primitive(&mut cw, pv),
+                "EVRLE" => ExplicitVRLittleEndianEncoder::default().encode_primitive(&mut cw, pv),
+                _ => ExplicitVRBigEndianEncoder::default().encode_primitive(&mut cw, pv),
             };
             (r.map_err(|e| e.to_string()), cw.data)
         });
@@ -1082,7 +1200,7 @@ fn run_prims(a: &std::collections::HashMap<String, String>) {
                 macro_rules! go {
                     ($enc:expr) => {{
                         let mut se = StatefulEncoder::new(&mut data, EncoderFor::new($enc), SpecificCharacterSet::default());
-                        let r = se.encode_primitive_element(&hdr, &pv).map_err(|e| e.to_string());
+                        let r = se.encode_primitive_element(&hdr, pv).map_err(|e| e.to_string());
                         (r, se.bytes_written())
                     }};
                 }
@@ -1126,7 +1244,7 @@ fn run_files(a: &std::collections::HashMap<String, String>) {
         let tss: Vec<&str> = if ts0 == "EVRLE" && (i / step) % 2 == 0 { vec!["EVRLE", "DEFL"] } else { vec![ts0] };
         for ts in tss {
             rep.cases += 1;
-            let obj = build_obj(&c["ds"], false);
+            let obj = build_obj(&c["ds"], Form::Plain);
             let res = catch(|| {
                 let fo = obj
                     .with_meta(
